@@ -315,5 +315,77 @@ impl<A: MaybeNan, D: Dimension> ArrayN<A, D> {
 
 }
 
+// ---- C20 as lemmas over the contracts proved above (reading: unit `deviation`) -------------------------------------------
+proof fn lemma_layout_min_skipnan<'a, A: MaybeNan, D: Dimension>(a1: &'a ArrayN<A, D>, a2: &'a ArrayN<A, D>, r1: &'a A, r2: &'a A)
+    where A::NotNan: Ord + 'a
+    requires
+        lawful_ord::<A::NotNan>(), a1@ == a2@,
+        call_ensures(ArrayN::<A, D>::min_skipnan, (a1,), r1), call_ensures(ArrayN::<A, D>::min_skipnan, (a2,), r2),
+    ensures
+        r1.is_nan_spec() <==> r2.is_nan_spec(), // [C20]
+        !r1.is_nan_spec() ==> eqv(r1.not_nan_spec(), r2.not_nan_spec()), // [C20] the same value up to the order's equivalence (D11)
+{
+    reveal(lawful_ord);
+    if !r1.is_nan_spec() && !r2.is_nan_spec() {
+        assert(dle(false, r1.not_nan_spec(), r2.not_nan_spec()) && dle(false, r2.not_nan_spec(), r1.not_nan_spec()));
+    }
+}
+proof fn lemma_layout_max_skipnan<'a, A: MaybeNan, D: Dimension>(a1: &'a ArrayN<A, D>, a2: &'a ArrayN<A, D>, r1: &'a A, r2: &'a A)
+    where A::NotNan: Ord + 'a
+    requires
+        lawful_ord::<A::NotNan>(), a1@ == a2@,
+        call_ensures(ArrayN::<A, D>::max_skipnan, (a1,), r1), call_ensures(ArrayN::<A, D>::max_skipnan, (a2,), r2),
+    ensures
+        r1.is_nan_spec() <==> r2.is_nan_spec(), // [C20]
+        !r1.is_nan_spec() ==> eqv(r1.not_nan_spec(), r2.not_nan_spec()), // [C20] the same value up to the order's equivalence (D11)
+{
+    reveal(lawful_ord);
+    if !r1.is_nan_spec() && !r2.is_nan_spec() {
+        assert(dle(true, r1.not_nan_spec(), r2.not_nan_spec()) && dle(true, r2.not_nan_spec(), r1.not_nan_spec()));
+    }
+}
+proof fn lemma_layout_argmin_skipnan<A: MaybeNan, D: Dimension>(a1: ArrayN<A, D>, a2: ArrayN<A, D>, r1: Result<D::Pattern, MinMaxError>, r2: Result<D::Pattern, MinMaxError>)
+    where A::NotNan: Ord
+    requires
+        lawful_ord::<A::NotNan>(), a1@ == a2@, forall|k: int| a1.idx(k) == a2.idx(k),
+        call_ensures(ArrayN::<A, D>::argmin_skipnan, (&a1,), r1), call_ensures(ArrayN::<A, D>::argmin_skipnan, (&a2,), r2),
+    ensures
+        r1 is Err <==> r2 is Err, // [C20]
+        r1 is Ok ==> exists|k1: int, k2: int| #![trigger a1.idx(k1), a1.idx(k2)] 0 <= k1 < a1@.len() && 0 <= k2 < a1@.len() && !a1@[k1].is_nan_spec() && !a1@[k2].is_nan_spec()
+            && r1->Ok_0 == a1.idx(k1) && r2->Ok_0 == a1.idx(k2) && eqv(a1@[k1].not_nan_spec(), a1@[k2].not_nan_spec()), // [C20] positions of the same logical array holding equivalent extremal values
+{
+    reveal(lawful_ord);
+    if r1 is Ok && r2 is Ok {
+        let k1 = choose|k: int| 0 <= k < a1@.len() && !(#[trigger] a1@[k]).is_nan_spec() && r1->Ok_0 == a1.idx(k)
+            && forall|j: int| 0 <= j < a1@.len() && !(#[trigger] a1@[j]).is_nan_spec() ==> dle(false, a1@[k].not_nan_spec(), a1@[j].not_nan_spec());
+        let k2 = choose|k: int| 0 <= k < a2@.len() && !(#[trigger] a2@[k]).is_nan_spec() && r2->Ok_0 == a2.idx(k)
+            && forall|j: int| 0 <= j < a2@.len() && !(#[trigger] a2@[j]).is_nan_spec() ==> dle(false, a2@[k].not_nan_spec(), a2@[j].not_nan_spec());
+        assert(dle(false, a1@[k1].not_nan_spec(), a1@[k2].not_nan_spec()) && dle(false, a1@[k2].not_nan_spec(), a1@[k1].not_nan_spec()));
+        assert(eqv(a1@[k1].not_nan_spec(), a1@[k2].not_nan_spec()));
+        assert(r1->Ok_0 == a1.idx(k1) && r2->Ok_0 == a1.idx(k2));
+    }
+}
+proof fn lemma_layout_argmax_skipnan<A: MaybeNan, D: Dimension>(a1: ArrayN<A, D>, a2: ArrayN<A, D>, r1: Result<D::Pattern, MinMaxError>, r2: Result<D::Pattern, MinMaxError>)
+    where A::NotNan: Ord
+    requires
+        lawful_ord::<A::NotNan>(), a1@ == a2@, forall|k: int| a1.idx(k) == a2.idx(k),
+        call_ensures(ArrayN::<A, D>::argmax_skipnan, (&a1,), r1), call_ensures(ArrayN::<A, D>::argmax_skipnan, (&a2,), r2),
+    ensures
+        r1 is Err <==> r2 is Err, // [C20]
+        r1 is Ok ==> exists|k1: int, k2: int| #![trigger a1.idx(k1), a1.idx(k2)] 0 <= k1 < a1@.len() && 0 <= k2 < a1@.len() && !a1@[k1].is_nan_spec() && !a1@[k2].is_nan_spec()
+            && r1->Ok_0 == a1.idx(k1) && r2->Ok_0 == a1.idx(k2) && eqv(a1@[k1].not_nan_spec(), a1@[k2].not_nan_spec()), // [C20] positions of the same logical array holding equivalent extremal values
+{
+    reveal(lawful_ord);
+    if r1 is Ok && r2 is Ok {
+        let k1 = choose|k: int| 0 <= k < a1@.len() && !(#[trigger] a1@[k]).is_nan_spec() && r1->Ok_0 == a1.idx(k)
+            && forall|j: int| 0 <= j < a1@.len() && !(#[trigger] a1@[j]).is_nan_spec() ==> dle(true, a1@[k].not_nan_spec(), a1@[j].not_nan_spec());
+        let k2 = choose|k: int| 0 <= k < a2@.len() && !(#[trigger] a2@[k]).is_nan_spec() && r2->Ok_0 == a2.idx(k)
+            && forall|j: int| 0 <= j < a2@.len() && !(#[trigger] a2@[j]).is_nan_spec() ==> dle(true, a2@[k].not_nan_spec(), a2@[j].not_nan_spec());
+        assert(dle(true, a1@[k1].not_nan_spec(), a1@[k2].not_nan_spec()) && dle(true, a1@[k2].not_nan_spec(), a1@[k1].not_nan_spec()));
+        assert(eqv(a1@[k1].not_nan_spec(), a1@[k2].not_nan_spec()));
+        assert(r1->Ok_0 == a1.idx(k1) && r2->Ok_0 == a1.idx(k2));
+    }
+}
+
 } // verus!
 fn main() {}
